@@ -7,17 +7,16 @@ import (
 	"context"
 	"fmt"
 	"io"
-	"net"
 	"os"
 	"os/exec"
 	"path/filepath"
 	"strings"
-	"sync/atomic"
 	"syscall"
 	"time"
 
 	pb "github.com/marekgalovic/anndb/protobuf"
 	"google.golang.org/grpc"
+	"verif/harness/ports"
 )
 
 type Server struct {
@@ -33,28 +32,7 @@ type Server struct {
 	conn   *grpc.ClientConn
 }
 
-var portCtr int64
-
-func FreePort() string {
-	shard := 0
-	if s := os.Getenv("VERIF_SHARD"); s != "" {
-		fmt.Sscanf(s, "%d/", &shard)
-	}
-	if s := os.Getenv("VERIF_PORT_SHARD"); s != "" {
-		fmt.Sscanf(s, "%d", &shard)
-	}
-	base := 30000 + (shard%20)*1500
-	for i := 0; i < 3000; i++ {
-		p := base + int(atomic.AddInt64(&portCtr, 1))%1500
-		l, err := net.Listen("tcp", fmt.Sprintf(":%d", p))
-		if err != nil {
-			continue
-		}
-		l.Close()
-		return fmt.Sprint(p)
-	}
-	panic("no free port")
-}
+func FreePort() string { return ports.Free() }
 
 func Bin() string { return os.Getenv("VERIF_ANNDB_BIN") }
 
